@@ -354,21 +354,29 @@ func (d *kitDNS) answer(q []byte) []byte {
 
 // ---------------------------------------------------------------- liberal CIDR membership
 
-// kitContains: the most liberal mathematical reading of "address lies in network": both are
-// compared as 128-bit values, IPv4 embedded as ::ffff:a.b.c.d, an IPv4 /p network as /(96+p).
-// (The code may be stricter — e.g. never match an IPv4 destination against ::/0 — that is not judged.)
+// kitContains: "address lies in network", per address family as the exit documentation defines
+// it (`0.0.0.0/0` = all IPv4, `::/0` = all IPv6): an IPv4 destination — also when it is spelled as
+// an IPv4-mapped IPv6 address ::ffff:a.b.c.d — can only lie in an IPv4 network (or in the
+// IPv4-mapped spelling ::ffff:a.b.c.d/(96+p) of one); an IPv6 destination only in an IPv6 network.
+// A zero-length or very short prefix of one family never covers the other family.
+// (Only an IPv4-mapped base with a prefix shorter than /96, which nobody writes and the harness
+// never generates, is read liberally as the 128-bit set.)
 func kitContains(n netip.Prefix, a netip.Addr) bool {
 	if !n.IsValid() || !a.IsValid() {
 		return false
 	}
-	a16 := netip.AddrFrom16(a.As16())
-	bits := n.Bits()
-	na := n.Addr()
-	if na.Is4() {
-		bits += 96
+	a = a.WithZone("").Unmap()
+	na, bits := n.Addr().WithZone(""), n.Bits()
+	switch {
+	case na.Is4():
+		return a.Is4() && netip.PrefixFrom(na, bits).Masked().Contains(a)
+	case na.Is4In6() && bits >= 96:
+		return a.Is4() && netip.PrefixFrom(na.Unmap(), bits-96).Masked().Contains(a)
+	case na.Is4In6():
+		return netip.PrefixFrom(na, bits).Masked().Contains(netip.AddrFrom16(a.As16()))
+	default:
+		return a.Is6() && netip.PrefixFrom(na, bits).Masked().Contains(a)
 	}
-	n16 := netip.PrefixFrom(netip.AddrFrom16(na.As16()), bits).Masked()
-	return n16.Contains(a16)
 }
 
 // kitParseNet parses a CIDR string independently of package net (netip), host bits masked off.
